@@ -41,7 +41,7 @@ _ALL = {
     "C15": {"suites": ["r-pair", "r-server"], "assumptions": [HONEST]},
     "C16": {"suites": ["r-codec", "r-pair", "r-hostile", "n-codec"], "assumptions": [COUNTERS]},
     "C17": {"suites": ["n-codec", "n-world"], "assumptions": [NOFORGE, "distinct tokens carry distinct keys (random 256-bit values)", "one connection attempt per token"]},
-    "C18": {"suites": ["n-world"], "assumptions": ["the network eventually delivers: stated as explicit good rounds"]},
+    "C18": {"suites": ["n-world", "t-udp"], "assumptions": ["the network eventually delivers: stated as explicit good rounds"]},
     "C19": {"suites": ["n-world", "n-codec"], "assumptions": []},
     "C20": {"suites": ["t-udp", "n-world", "r-server"], "assumptions": ["OS socket behaviour (kernel buffering, WouldBlock/ConnectionReset, ICMP, scheduling) is observed through real loopback sockets, not proved", "connections created with new_local_client are outside the transport (they break lock-step by construction)", NOFORGE]},
 }
